@@ -167,6 +167,22 @@ Theorem p2p_unparsable_hidden : forall u s, parse_p2p s = None -> p2p_name_for_u
 Proof. exact p2p_for_user_unparsable. Qed.
 Print Assumptions p2p_unparsable_hidden.
 
+(* ParseP2P on arbitrary names: a name that parses spells exactly the pair it
+   parses to - "p2p" + the canonical 22 characters of LE(x)||LE(y), up to the 4
+   unused trailing bits of the last character (16 spellings); bad prefix,
+   wrong length or any character outside the alphabet is rejected.  (ParseP2P
+   does not require x < y or non-zero halves: it only decodes.) *)
+Theorem p2p_decode_sound : forall s x y, parse_p2p s = Some (x, y) ->
+  x < two64 /\ y < two64 /\ exists k, k < 16 /\ s = s_p2p ++ pair_spelling x y k.
+Proof. exact parse_p2p_sound. Qed.
+Print Assumptions p2p_decode_sound.
+
+Theorem p2p_invalid_rejected : forall s,
+  has_prefix s s_p2p = false \/ length (skipn 3 s) <> 22%nat \/
+  forallb valid_char (skipn 3 s) = false -> parse_p2p s = None.
+Proof. exact parse_p2p_rejects. Qed.
+Print Assumptions p2p_invalid_rejected.
+
 (* group and channel spellings of a name convert into each other without loss *)
 Theorem grp_chn_inverse : forall s, has_prefix s s_grp = true ->
   chn_to_grp (grp_to_chn s) = s /\ is_channel (grp_to_chn s) = true /\
